@@ -21,7 +21,7 @@ IMG_SERVER(s)
 #include "downdec.h"
 
 static const char *PROP = "C14";
-static int is14, is15, is16, thorough;
+static int is10, is14, is15, is16, thorough;
 static const char *DOM = "t.example.com";
 static const char *PW = "sesame";
 static unsigned char pw32[33];
@@ -72,6 +72,9 @@ static void mk_alphabet(void)
 	addl(L_DATA_LAST, 0, 0, "data(last)");
 	/* first delivery through a relay that upper-cases the name (0x20-style); the harness remembers the lower-case original */
 	if (is16) addl(L_DATA_LAST, 1, 0, "data(last,upper)");
+	/* the same without letting the server's 20 ms 'answer real soon' timer run before the next letter: a relay's retry, a tun packet
+	 * or another query can then arrive inside that window (the +20ms letter lets the timer fire) */
+	addl(L_DATA_LAST, 0, 1, "data(last,next letter within 20 ms)");
 	for (int k = 0; k < 4; k++) for (int v = 0; v < 4; v++) {
 		if (KS[k] == 2 && v != V_SAME && v != V_NEWID) continue;
 		addl(L_DUP, KS[k], v, "redeliver(%d back,%s)", KS[k], VN[v]);
@@ -199,7 +202,7 @@ static void inspect_outputs(const char *lname)
 		if (o->full_len > o->len) vw_fatal("datagram of %d bytes does not fit the capture buffer", o->full_len);
 		if (o->len >= 4 && o->data[0] == 0x10 && o->data[1] == 0xd1 && o->data[2] == 0x9e) continue;    /* raw frames are not DNS answers */
 		static rd_msg m; char err[128];
-		if (rd_parse(o->data, o->len, &m, err)) { if (is14) viol("unparsable-answer", "after %s the server emitted %d bytes that are not a DNS message: %s", lname, o->len, err); continue; }
+		if (rd_parse(o->data, o->len, &m, err)) { if (is14) viol("unparsable-answer", "after %s the server emitted %d bytes that are not a DNS message: %s", lname, o->len, err); if (is10) viol("malformed-message", "after %s the server emitted %d bytes that are not a well-formed DNS message: %s", lname, o->len, err); continue; }
 		if (!m.qr) continue;
 		xp_count(K_ANSWERS, 1);
 		int found = -1;
@@ -209,6 +212,7 @@ static void inspect_outputs(const char *lname)
 		}
 		if (found < 0) {
 			char nm[300]; rd_name_to_dotted(m.qname, m.qnamelen, nm, sizeof nm); nm[36] = 0;
+			if (is10) viol("answer-does-not-echo-question", "after %s the server sent an answer with id %d, type %d and question name %s.. to %s: no unanswered query from that address has that id, name and type", lname, m.id, m.qtype, nm, vw_addr_str(&o->dst));
 			if (is14) viol("unsolicited-or-surplus-answer", "after %s the server sent an answer (id %d, type %d, name %s..) to %s that matches no received and still unanswered query", lname, m.id, m.qtype, nm, vw_addr_str(&o->dst));
 			continue;
 		}
@@ -276,6 +280,7 @@ static int apply(int li)
 		remember(pkt, plen, 1);
 		if (L->a) for (int k = 1; k <= pkt[12]; k++) pkt[12 + k] = toupper(pkt[12 + k]);
 		send_q(&SRC_A, pkt, plen);
+		if (L->b) do_settle = 0;
 		break;
 	}
 	case L_DUP: {
@@ -295,10 +300,15 @@ static int apply(int li)
 		int expect_cached = -1;
 		if (!rd_parse(pkt, plen, &m, err))
 			for (int k = 0; k < 4; k++) if (M.cache[k].used && M.cache[k].qtype == m.qtype && qname_eq(M.cache[k].qname, M.cache[k].qnlen, m.qname, m.qnamelen)) expect_cached = k;
+		/* a timer about to fire (the 20 ms 'answer real soon' one) is not part of the re-delivery: when one is pending, the repeat is
+		 * judged on what the server does with it before the timer runs, and the timer's own answers are looked at afterwards */
+		int timer_pending = vw_alive(0) && W.proc[0].deadline != VW_NEVER && W.proc[0].deadline - W.now <= 20000;
 		send_q(src, pkt, plen);
-		settle(); do_settle = 0;
+		if (!timer_pending) settle();
+		do_settle = timer_pending;
 		inspect_outputs(L->name);
 		get_pos(&after);
+		if (timer_pending) { adv_clear(); expect_cached = -1; }
 		if (is16) {
 			xp_count(K_POS_CHECKS, 1);
 			if (memcmp(&before, &after, sizeof before))
@@ -315,6 +325,7 @@ static int apply(int li)
 				else xp_count(K_CACHE_SAME, 1);
 			}
 		}
+		if (do_settle) { settle(); inspect_outputs(L->name); }
 		goto done;
 	}
 	case L_TUN: {
@@ -393,7 +404,8 @@ done:
 		if (distinct == 2) xp_count(K_HELD2, 1);
 		/* (a session that has switched to raw UDP mode is no longer a lazy-mode DNS session: the raw login drops the
 		 * query the server held, which the wire-level count cannot tell from holding it -- see DESIGN.md, log) */
-		if (is14 && distinct > 2 && !M.rawed) {
+		int at_rest = !(vw_alive(0) && W.proc[0].deadline != VW_NEVER && W.proc[0].deadline - W.now <= 20000);       /* no 'real soon' answer pending */
+		if (is14 && distinct > 2 && !M.rawed && at_rest) {
 			char nm[300]; rd_name_to_dotted(M.pending[idx[0]].qname, M.pending[idx[0]].qnlen, nm, sizeof nm); nm[30] = 0;
 			viol("more-than-two-held-queries", "after %s the server is idle with %d distinct unanswered queries of the session (e.g. %s..)", L->name, distinct, nm);
 		}
@@ -533,7 +545,7 @@ int main(int argc, char **argv)
 		if (!strcmp(a.extra[i], "--prop") && i + 1 < a.nextra) PROP = a.extra[++i];
 		else if (!strcmp(a.extra[i], "--depth") && i + 1 < a.nextra) depth = atoi(a.extra[++i]);
 	}
-	is14 = !strcmp(PROP, "C14"); is15 = !strcmp(PROP, "C15"); is16 = !strcmp(PROP, "C16"); thorough = a.thorough;
+	is10 = !strcmp(PROP, "C10"); is14 = !strcmp(PROP, "C14"); is15 = !strcmp(PROP, "C15"); is16 = !strcmp(PROP, "C16"); thorough = a.thorough;
 	memset(pw32, 0, sizeof pw32); strcpy((char *)pw32, PW);
 	vw_mkaddr(&SRC_A, &SRCLEN, "198.51.100.7", 4000);
 	vw_mkaddr(&SRC_A2, &SRCLEN, "198.51.100.7", 4777);       /* a second relay port at the same address (passes the source check) */
